@@ -1,13 +1,14 @@
 CHECK = {
     "level": "fault_enumeration",
     "technique": "deviation-bounded exhaustive enumeration of driver behaviour scripts (scripted octet- and chunk-style sources and sinks with call budgets, plus the library's own buffer/chunk-list/trivial endpoints behind a counting pass-through) on the real endpoint code; every execution is checked against a stream-prefix model of what the drivers handed out, received and answered",
-    "rule": "a case = (operation, driver kind per side, count, stream length, aux geometry, behaviour script per driver). Scripts are finite sequences over {1, 2, k=asked-1, rest, 0, EINTR, EAGAIN, hard error = EIO (sinks also ENOMEM, the documented 'out of space')} and fall back to 'transfer everything asked' when they run out; octet drivers use {rest, 0, EINTR, EAGAIN, hard error}. Enumeration is by number of deviations from the default answer: everything with 0 deviations, then 1, 2, ... so the lowest-numbered counterexample has the fewest. One driver (source_get_chunk, sink_put_chunk, the two at-most forms, get/put octet; N 1..6, N=0 and SSIZE_MAX+1): every script over the first 5 (thorough 6) of 8 call slots plus every placement of <=3 (4) deviations over all 8. Two drivers (sts_cbc, sts_some, sts_atmost, sts_n_cbc, sts_n, sts_drain_cbc, sts_drain, sts_some_aux, sts_atmost_aux, sts_n_aux, sts_drain_aux; all four octet/chunk pairings): every placement of <=3 (4) deviations over 6+6 call slots, counts {0,1,2,3,6} (0..6), stream lengths {0,1,3,5} (0..6), streams that end one octet early, 5 (7) aux geometries with 0<=offset<used<size<=5 of which 2 (4) go to the full deviation bound and the rest to one less. The property's 'random long transfers with random scripts' is replaced by a structured exhaustive family: transfers of 40 octets under every periodic script of period <=3 (4) for one driver and <=2 (3) per side for two drivers that contains at least one progressing answer, plus the library's own source_from_buffer/source_from_chunks/sink_to_buffer/source_zero/source_empty/sink_null over every cut of streams <=4 (6) octets into <=3 chunks, every count and every sink capacity. Non-trivial = at least one partial transfer, zero-length return, EINTR/EAGAIN, hard error or end-of-stream was actually answered to the library during the case (library endpoints: more than one chunk, or source or sink shorter than the count). At start-up the checker is run on an independent reference implementation (must pass) and on four deliberately broken variants of it (must be rejected).",
+    "rule": "a case = (operation, driver kind per side, count, stream length, aux geometry, behaviour script per driver). Scripts are finite sequences over {1, 2, k=asked-1, rest, 0, EINTR, EAGAIN, hard error = EIO (sinks also ENOMEM, the documented 'out of space')} and fall back to 'transfer everything asked' when they run out; octet drivers use {rest, 0, EINTR, EAGAIN, hard error}. Enumeration is by number of deviations from the default answer: everything with 0 deviations, then 1, 2, ... so the lowest-numbered counterexample has the fewest. One driver (source_get_chunk, sink_put_chunk, the two at-most forms, get/put octet; N 1..6, N=0 and SSIZE_MAX+1): every script over the first 5 (thorough 6) of 8 call slots plus every placement of <=3 (4) deviations over all 8. Two drivers (sts_cbc, sts_some, sts_atmost, sts_n_cbc, sts_n, sts_drain_cbc, sts_drain, sts_some_aux, sts_atmost_aux, sts_n_aux, sts_drain_aux; all four octet/chunk pairings): every placement of <=3 (4) deviations over 6+6 call slots, counts {0,1,2,3,6} (0..6), stream lengths {0,1,3,5} (0..6), streams that end one octet early, 6 (8) aux geometries with 0<=offset<used<size<=6 (one with offset>0 and counts between the region length and `used`) of which 2 (4) go to the full deviation bound and the rest to one less. The property's 'random long transfers with random scripts' is replaced by a structured exhaustive family: transfers of 40 octets under every periodic script of period <=3 (4) for one driver and <=2 (3) per side for two drivers that contains at least one progressing answer, plus the library's own source_from_buffer/source_from_chunks/sink_to_buffer/source_zero/source_empty/sink_null over every cut of streams <=4 (6) octets into <=3 chunks, every count and every sink capacity. Non-trivial = at least one partial transfer, zero-length return, EINTR/EAGAIN, hard error or end-of-stream was actually answered to the library during the case (library endpoints: more than one chunk, or source or sink shorter than the count). At start-up the checker is run on an independent reference implementation (must pass) and on four deliberately broken variants of it (must be rejected).",
     "assumptions": [
         "driver answers never exceed what was asked; a driver that answers 0/EINTR/EAGAIN for ever is outside the alphabet (scripts are finite), so every retry loop is bounded by a call budget and overrunning it is clause C17/hang",
-        "small scope: counts <= 6 (40 in the periodic family), scripts <= 8 (6+6) call slots, auxiliary buffers <= 5 octets",
-        "the octets between offset and used are taken as the auxiliary buffer's region, as the code does; geometries keep the free octets behind `used` non-empty too, and the memory check is against the whole buffer (red zones + pointer ranges seen by the drivers) plus 'octets in front of offset untouched' for the non-rewinding forms",
-        "c17_endpoints exercises sts_some/sts_atmost/sts_n/sts_drain on endpoints without the getbuffer extension; c17_getbuffer drives the same four operations through a source that offers a scratch region (the only getbuffer contract the code defines completely: read into the region, forward what was read), with partial-transfer scripts on both sides; sinks with a getbuffer extension are not driven (the code gives them no way to learn how much was stored)",
-        "the return value of a drain without a scripted hard error is not pinned; N=0 / N>SSIZE_MAX must be refused with a negative code and without a driver call (the code itself is not pinned)",
+        "small scope: counts <= 6 (40 in the periodic family), scripts <= 8 (6+6) call slots, auxiliary buffers <= 6 octets",
+        "the octets between offset and used are taken as the auxiliary buffer's region, as the code does; geometries keep the free octets behind `used` non-empty too; the memory check is against the whole buffer (red zones + pointer ranges seen by the drivers), and for the non-rewinding forms (sts_some_aux, sts_atmost_aux) every range handed to a driver has to lie inside [offset,used) or inside [used,size) (the other reading of the region) and the octets in front of offset stay untouched",
+        "how much an implementation asks a driver for in one call is not judged (requests of any size up to SSIZE_MAX/2 are served); a short answer because the stream ends is not counted as a driver deviation",
+        "c17_endpoints exercises sts_some/sts_atmost/sts_n/sts_drain on endpoints without the getbuffer extension; c17_getbuffer drives the same four operations through a source that offers a scratch region, with partial-transfer scripts on both sides; using the offer is optional (memory of the scratch block outside the offered region must not be used; the at-most forms are bounded by the count asked, not by the region; a drain's return value is not pinned); sinks with a getbuffer extension are not driven (the code gives them no way to learn how much was stored)",
+        "the return value of a drain without a scripted hard error is not pinned (both harnesses); whether an at-most form passes an interruption on or retries it is left open (the outcome classes atmost-interrupted / plumb-interrupted are not required); N=0 / N>SSIZE_MAX must be refused with a negative code and without a driver call (the code itself is not pinned)",
     ],
     "harnesses": [{
         "name": "c17_endpoints", "src": "harness/c17_endpoints.c", "shape": "espace",
@@ -17,7 +18,7 @@ CHECK = {
         "require_outcomes": {"any": [
             "ok-default-driver", "ok-after-partial", "ok-after-interruption", "ok-after-zero-return",
             "ok-after-partial-and-interruption", "hard-error", "invalid-refused", "source-end",
-            "atmost-short", "atmost-full", "atmost-interrupted", "plumb-interrupted",
+            "atmost-short", "atmost-full",
             "drain-complete", "drain-complete-after-deviation", "drain-hard-error",
             "real-ok-across-chunks", "real-atmost-short", "real-sink-full", "real-source-end",
             "real-drain-across-chunks"]},
